@@ -329,6 +329,7 @@ impl Prop for C20 {
             ops: vec![],
             stream: Some(stream),
             config: desc,
+            hidden_faults: take_hidden_faults(),
         }
     }
 
